@@ -215,7 +215,7 @@ impl Visitor for BadStringEscapeVisitor {
                         _ => {
                             self.sequences.push(
                                 StringEscapeSequence{
-                                    range: (start, start + 2),
+                                    range: (start, start + 1 + captures[1].len()),
                                     issue: ReasonWhy::Invalid,
                                 }
                             );
